@@ -18,7 +18,6 @@ package shmipc
 
 import (
 	"os"
-	"reflect"
 	"runtime"
 	"strings"
 	"sync"
@@ -80,16 +79,9 @@ func maxInt(a, b int) int {
 }
 
 func string2bytesZeroCopy(s string) []byte {
-	stringHeader := (*reflect.StringHeader)(unsafe.Pointer(&s))
-
-	bh := reflect.SliceHeader{
-		Data: stringHeader.Data,
-		Len:  stringHeader.Len,
-		Cap:  stringHeader.Len,
-	}
-
-	//nolint:govet
-	return *(*[]byte)(unsafe.Pointer(&bh))
+	// no SliceHeader built from a uintptr: while only the integer refers to the
+	// string's bytes the garbage collector is free to reclaim them
+	return unsafe.Slice(unsafe.StringData(s), len(s))
 }
 
 func pathExists(path string) bool {
